@@ -61,6 +61,11 @@ func callMenu(v2 bool) []call {
 		{name: "TransactWriteItems", op: drv.Op{K: drv.KTransact}},
 	}
 	if v2 {
+		// conditional writes that fail and carry the stored item back (the v1 request types have no such field)
+		cs = append(cs,
+			call{name: "Upd(k1,failing condition,ALL_OLD on failure)", op: drv.Op{K: drv.KUpd, Table: "tab", Key: hk("k1"), Upd: rx.U(rx.Add("n", ":one")), Values: one, Cond: rx.NotExists("h"), RetOnFail: true}},
+			call{name: "Del(k1,failing condition,ALL_OLD on failure)", op: drv.Op{K: drv.KDel, Table: "tab", Key: hk("k1"), Cond: rx.NotExists("h"), RetOnFail: true}},
+		)
 		cs = append(cs, call{name: "BatchGet(k1,k2)", op: drv.Op{K: drv.KBatchGet, BGKeys: map[string][]val.Item{"tab": {hk("k1"), hk("k2")}}},
 			sub: []drv.Op{{K: drv.KGet, Tag: "failure-check", Table: "tab", Key: hk("zz")}, {K: drv.KGet, Table: "tab", Key: hk("k1")}, {K: drv.KGet, Table: "tab", Key: hk("k2")}}})
 	}
